@@ -5,6 +5,7 @@ import (
 	"go/constant"
 	"go/token"
 	"go/types"
+	"os"
 	"sort"
 	"strings"
 
@@ -58,45 +59,31 @@ func (c *Ctx) isIntersection(v ssa.Value, depth int) bool {
 	return false
 }
 
-// singleSided: reviewed sites where one side (want or given) or a client-requested mode is tested
-// on purpose. Key: function, predicate, receiver class. Value: max count and reason.
+// singleSided: reviewed single-sided tests: one side (want or given) or a client-requested mode is
+// tested on purpose. Key: predicate and receiver class (module-wide budget, so that moving a test
+// into a helper or another handler changes nothing); a mode parameter is resolved to the class of the
+// argument at every call site. Value: number of reviewed sites and the reasons.
 var singleSided = map[string]struct {
 	n   int
 	why string
 }{
-	"(*server.Topic).anotherUserSub|IsJoiner|field modeGiven":  {1, "a target whose new grant lacks J is evicted (ban)"},
-	"(*server.Topic).anotherUserSub|IsJoiner|local":            {1, "invitee's own requested mode lacks J: invitation rejected"},
-	"(*server.Topic).anotherUserSub|IsJoiner|phi":              {1, "invitee's own requested mode lacks J: invitation rejected"},
-	"(*server.Topic).anotherUserSub|IsOwner|local":             {2, "the newly granted mode asks for O: owner-only checks"},
-	"(*server.Topic).notifySubChange|IsDefined|param newGiven": {1, "delta rendering: value defined?"},
-	"(*server.Topic).notifySubChange|IsDefined|param newWant":  {1, "delta rendering: value defined?"},
-	"(*server.Topic).notifySubChange|IsDefined|param oldGiven": {1, "delta rendering: value defined?"},
-	"(*server.Topic).notifySubChange|IsDefined|param oldWant":  {1, "delta rendering: value defined?"},
-	"(*server.Topic).notifySubChange|IsZero|param oldGiven":    {1, "delta rendering: full mode when the old one was empty"},
-	"(*server.Topic).notifySubChange|IsZero|param oldWant":     {1, "delta rendering: full mode when the old one was empty"},
-	"(*server.Topic).replyDelSub|IsJoiner|field modeWant":      {1, "a self-banned subscription is not deleted (would allow re-invite)"},
-	"(*server.Topic).replyGetSub|IsDefined|field ModeGiven":    {1, "report only defined modes"},
-	"(*server.Topic).replyGetSub|IsDefined|field ModeWant":     {1, "report only defined modes"},
-	"(*server.Topic).replySetDesc$1|IsOwner|extract":           {2, "default access must not contain O"},
-	"(*server.Topic).subscriptionReply|IsJoiner|extract":       {1, "effective mode reported by thisUserSub parsed back: joined?"},
-	"(*server.Topic).thisUserSub|IsAdmin|field modeGiven":      {1, "group admin may raise own grant"},
-	"(*server.Topic).thisUserSub|IsAdmin|local":                {1, "requested mode asks for admin bits"},
-	"(*server.Topic).thisUserSub|IsJoiner|field modeGiven":     {2, "grant lacks J: banned, cannot attach"},
-	"(*server.Topic).thisUserSub|IsJoiner|field modeWant":      {2, "requested mode lacks J: self-ban / un-self-ban"},
-	"(*server.Topic).thisUserSub|IsJoiner|local":               {1, "owner cannot self-ban"},
-	"(*server.Topic).thisUserSub|IsOwner|field modeGiven":      {1, "only a grant with O may accept/hold ownership"},
-	"(*server.Topic).thisUserSub|IsOwner|field modeWant":       {1, "ownership acceptance: previously not requested"},
-	"(*server.Topic).thisUserSub|IsOwner|local":                {4, "requested mode asks for / drops O"},
-	"(*server.Topic).thisUserSub|IsPresencer|field modeWant":   {1, "channel reader push subscription follows the requested P bit (grant is fixed)"},
-	"server.initTopicNewGrp|IsInvalid|extract":                 {2, "parsed default access validity"},
-	"server.initTopicNewGrp|IsOwner|extract":                   {2, "default access must not contain O"},
-	"server.presOfflineFilter|IsJoiner|param mode":             {1, "filter helper: callers pass the intersection (checked at the call sites)"},
-	"server.presOfflineFilter|IsPresencer|param mode":          {1, "filter helper: callers pass the intersection (checked at the call sites)"},
-	"server.replyOfflineTopicSetSub|IsOwner|field ModeWant":    {1, "no ownership changes while the topic is offline"},
-	"server.replyOfflineTopicSetSub|IsOwner|local":             {1, "no ownership changes while the topic is offline"},
-	"(*server.Topic).passesPresenceFilters|IsPresencer|pair":   {1, "want/given pair returned by getPerUserAcs"},
-	"(*server.Topic).userIsReader|IsReader|pair":               {1, "want/given pair returned by getPerUserAcs"},
-	"(*server.Topic).userIsPresencer|IsPresencer|pair":         {1, "want/given pair returned by getPerUserAcs"},
+	"IsAdmin|field modeGiven":    {1, "self-subscription: a group admin may raise their own grant"},
+	"IsAdmin|value":              {1, "self-subscription: the requested mode asks for admin bits"},
+	"IsDefined|field ModeGiven":  {1, "get.sub reports only defined modes"},
+	"IsDefined|field ModeWant":   {1, "get.sub reports only defined modes"},
+	"IsDefined|param":            {4, "acs delta rendering in notifySubChange: value defined?"},
+	"IsZero|param":               {2, "acs delta rendering in notifySubChange: full mode when the old one was empty"},
+	"IsInvalid|value":            {2, "validity of the parsed default access of a new group"},
+	"IsJoiner|field modeGiven":   {3, "grant lacks J: banned, cannot attach / a target whose new grant lacks J is evicted"},
+	"IsJoiner|field modeWant":    {3, "self-ban / un-self-ban; a self-banned subscription is not deleted (would allow re-invite)"},
+	"IsJoiner|value":             {4, "requested or parsed-back mode: owner cannot self-ban, invitation rejected, joined?"},
+	"IsOwner|field ModeWant":     {1, "no ownership changes while the topic is offline"},
+	"IsOwner|field modeGiven":    {1, "only a grant with O may accept/hold ownership"},
+	"IsOwner|field modeWant":     {1, "ownership acceptance: previously not requested"},
+	"IsOwner|value":              {11, "requested mode asks for / drops O; default access must not contain O; offline set-sub"},
+	"IsPresencer|field modeWant": {1, "channel reader push subscription follows the requested P bit (grant is fixed)"},
+	"IsPresencer|pair":           {1, "want/given pair returned by getPerUserAcs"},
+	"IsReader|pair":              {1, "want/given pair returned by getPerUserAcs"},
 }
 
 func checkC07(c *Ctx) {
@@ -130,13 +117,55 @@ func (c *Ctx) pairCall(v ssa.Value) bool {
 func (c *Ctx) checkIntersect() {
 	r := c.R
 	r.Floor("C07.1-effective-mode-is-intersection", 45)
-	count := map[string]int{}
-	type site struct {
-		fn   *ssa.Function
-		call *ssa.Call
-		key  string
+	type vsite struct {
+		fn    *ssa.Function
+		pos   string
+		pred  string
+		cls   string
+		inter bool
 	}
-	var sites []site
+	var sites []vsite
+	// lift: resolves a receiver to (class, isIntersection) pairs; parameters are resolved at the callers.
+	var lift func(fn *ssa.Function, recv ssa.Value, depth int, pos string, pred string)
+	lift = func(fn *ssa.Function, recv ssa.Value, depth int, pos string, pred string) {
+		if c.isEffMode()(recv) || c.isEffModeSub()(recv) || (c.isIntersection(recv, 0) && !c.pairCall(recv)) {
+			sites = append(sites, vsite{fn, pos, pred, "intersection", true})
+			return
+		}
+		definedness := pred == "IsDefined" || pred == "IsZero" || pred == "IsInvalid" // not a permission bit: no lifting
+		if p, ok := core.Strip(recv).(*ssa.Parameter); ok && depth < 3 && !definedness {
+			idx := -1
+			for i, q := range fn.Params {
+				if q == p {
+					idx = i
+				}
+			}
+			callers := c.callersOf(fn)
+			if idx >= 0 && len(callers) > 0 {
+				for _, cs := range callers {
+					args := cs.Site.Common().Args
+					if cs.Site.Common().IsInvoke() || idx >= len(args) {
+						sites = append(sites, vsite{fn, pos, pred, "param", false})
+						continue
+					}
+					lift(cs.Caller, args[idx], depth+1, pos+" <- "+c.pos(cs.Site), pred)
+				}
+				return
+			}
+		}
+		cls := c.modeRecvClass(recv)
+		if c.pairCall(recv) {
+			cls = "pair"
+		}
+		switch cls {
+		case "local", "phi", "extract", "load":
+			cls = "value"
+		}
+		if strings.HasPrefix(cls, "param ") {
+			cls = "param"
+		}
+		sites = append(sites, vsite{fn, pos, pred, cls, false})
+	}
 	for _, fn := range c.P.ModFuncs {
 		if !core.InPkg(fn, "server") {
 			continue
@@ -154,34 +183,50 @@ func (c *Ctx) checkIntersect() {
 			if sig.Recv() == nil || !isModeType(sig.Recv().Type()) {
 				return
 			}
-			recv := call.Call.Args[0]
-			cls := c.modeRecvClass(recv)
-			if c.pairCall(recv) {
-				cls = "pair"
-			}
-			key := fk(fn) + "|" + f.Name() + "|" + cls
-			sites = append(sites, site{fn, call, key})
 			r.Func(fk(fn))
+			lift(fn, call.Call.Args[0], 0, c.pos(call), f.Name())
 		})
 	}
-	sort.Slice(sites, func(i, j int) bool { return sites[i].key < sites[j].key })
+	sort.Slice(sites, func(i, j int) bool {
+		if sites[i].pred+sites[i].cls != sites[j].pred+sites[j].cls {
+			return sites[i].pred+sites[i].cls < sites[j].pred+sites[j].cls
+		}
+		return sites[i].pos < sites[j].pos
+	})
+	count := map[string]int{}
+	where := map[string][]string{}
+	nInter := 0
 	for _, s := range sites {
-		recv := s.call.Call.Args[0]
-		f := core.CalleeOf(&s.call.Call)
-		construct := fmt.Sprintf("%s: %s() on %s", fk(s.fn), f.Name(), c.modeRecvClass(recv))
-		if c.isEffMode()(recv) || c.isEffModeSub()(recv) || (c.isIntersection(recv, 0) && !c.pairCall(recv)) {
-			r.OK("C07.1-effective-mode-is-intersection", construct, c.pos(s.call), "receiver is an intersection of a want and a given value")
+		if s.inter {
+			nInter++
+			r.OK("C07.1-effective-mode-is-intersection", fmt.Sprintf("%s() on want&given #%d", s.pred, nInter), s.pos, "receiver is an intersection of a want and a given value")
 			continue
 		}
-		count[s.key]++
-		row, ok := singleSided[s.key]
+		key := s.pred + "|" + s.cls
+		count[key]++
+		where[key] = append(where[key], fk(s.fn)+" "+s.pos)
+	}
+	var keys []string
+	for k := range count {
+		keys = append(keys, k)
+	}
+	sort.Strings(keys)
+	for _, k := range keys {
+		parts := strings.SplitN(k, "|", 2)
+		construct := fmt.Sprintf("%s() on %s", parts[0], parts[1])
+		row, ok := singleSided[k]
+		if os.Getenv("VERIF_DUMP") != "" {
+			fmt.Printf("DUMP\t%q: {%d, \"\"}, // %s\n", k, count[k], strings.Join(where[k], "; "))
+		}
 		switch {
 		case !ok:
-			r.Fail("C07.1-effective-mode-is-intersection", construct, c.pos(s.call), "a permission decision is made on a value that is neither want&given nor a reviewed single-sided test")
-		case count[s.key] > row.n:
-			r.Fail("C07.1-effective-mode-is-intersection", construct+fmt.Sprintf(" #%d", count[s.key]), c.pos(s.call), fmt.Sprintf("more single-sided tests of this kind than reviewed (%d)", row.n))
+			r.Fail("C07.1-effective-mode-is-intersection", construct, strings.Join(where[k], "; "), "a permission decision is made on a value that is neither want&given nor a reviewed single-sided test")
+		case count[k] > row.n:
+			r.Fail("C07.1-effective-mode-is-intersection", construct, strings.Join(where[k], "; "), fmt.Sprintf("%d single-sided tests of this kind, %d were reviewed (%s): one of the listed sites decides on one side only", count[k], row.n, row.why))
 		default:
-			r.OK("C07.1-effective-mode-is-intersection", construct+fmt.Sprintf(" #%d", count[s.key]), c.pos(s.call), "reviewed single-sided test: "+row.why)
+			for i := 0; i < count[k]; i++ {
+				r.OK("C07.1-effective-mode-is-intersection", fmt.Sprintf("%s #%d", construct, i+1), where[k][i], "reviewed single-sided test: "+row.why)
+			}
 		}
 	}
 	// filter helpers taking a mode parameter: every call site passes an intersection
@@ -228,7 +273,7 @@ func (c *Ctx) subHandlers() (self, other *ssa.Function) {
 		if len(c.parsedModeCells(fn)) != 1 || len(core.CallsTo(fn, subsCreate)) == 0 {
 			continue
 		}
-		if len(core.CallsTo(fn, ownerChange)) > 0 {
+		if c.callsDeep(fn, ownerChange, 2) {
 			self = fn
 		} else {
 			other = fn
